@@ -61,7 +61,7 @@ def model_emit(q):
             for c in gi.tlc_lists(r.out, "CEX"):
                 out["cex"].append((n, c["h"], c["b1"]))
         out["runs"].append(r)
-    for (n, emit, num) in ([(2, 10, 60), (3, 12, 40)] if q else [(2, 12, 600), (3, 14, 400)]):
+    for (n, emit, num) in ([(2, 10, 40), (3, 12, 25)] if q else [(2, 12, 400), (3, 14, 250)]):
         cfg = mc_cfg("IsolationMC_sim_%d.cfg" % n, n, 1000, emit, False, (False, False, False), "CONSTRAINT Emit")
         r = vc.run_tlc("IsolationMC", cfg=cfg, timeout=600, heap="4g", simulate=num, depth=emit + 1, workers=4, tag="IsoSim%d" % n,
                        extra=["-noGenerateSpecTE"])
@@ -87,7 +87,7 @@ def model_verify(q):
         variants.append(("chip_type + lfotable per instance (P1 repaired, tables still shared)", (True, True, False), "NoBadP1", 2))
         variants.append(("all repairs", (True, True, True), "NoBad", 3))
     for (name, fix, inv, n) in variants:
-        cfg = mc_cfg("IsolationMC_fix_%s_%d.cfg" % ("".join("1" if f else "0" for f in fix), n), n, 1000 if n == 2 else 9, 0, False, fix,
+        cfg = mc_cfg("IsolationMC_fix_%s_%d.cfg" % ("".join("1" if f else "0" for f in fix), n), n, 1000 if n == 2 else 8, 0, False, fix,
                      "INVARIANT %s\nCONSTRAINT DepthBound\nVIEW View" % inv)
         r = vc.run_tlc("IsolationMC", cfg=cfg, timeout=2400, heap="16g", workers=(8 if n == 2 else 1), tag="IsoFix%d" % n, extra=["-noGenerateSpecTE"])
         r.scope = {"model": name, "N": n, "invariant": inv, "expected": "holds", "complete": n == 2}
@@ -214,4 +214,4 @@ def check_c14(pid, tier, replay):
     if counters.get("drifted", 0):
         print("MODEL-DRIFT: %d of %d recorded calls are not explained by spec/Isolation.tla (unmodelled global / call not enabled): %s"
               % (counters["drifted"], counters.get("refined", 0), json.dumps(stats.get("drift", [])[:2])))
-    return checks.conclude(pid, tier, "model_checking", histories, failures, rerun, coverage, t0, ASSUME, max_report=8)
+    return checks.conclude(pid, tier, "model_checking", histories, failures, rerun, coverage, t0, ASSUME, max_report=(10 if q else 30))
